@@ -47,6 +47,9 @@ def spec_items(tier):
     G = [F(1, 2), F(9, 10), F(1)]
     yield from build.enum_mdps(1, [('a',), ('b',), ('a', 'b')], 0, R3, [(), (0,)], build.INIT_MENU[1], G)
     yield from (it for it in build.edge_mdps() if it[5] > 0)
+    # a three-action state (three-way mixtures, incl. weights such as 1/5, 7/10, 1/10 whose float sum is not exactly 1)
+    yield from build.enum_mdps(2, None, 0, [F(-1), F(0)], [(), (1,)], [build.INIT_MENU[2][0]], [F(9, 10), F(1)],
+                               per_state_action_sets=[[('a', 'b', 'c')], [('a',)]])
     if tier == 'quick':
         yield from build.enum_mdps(2, AS, 1, [F(-1), F(0)], [(), (1,)], [build.INIT_MENU[2][0], build.INIT_MENU[2][2]],
                                    [F(9, 10), F(1)])
@@ -63,7 +66,9 @@ def items(tier, seed):
 
 LATTICE = {1: [(F(1),)],
            2: [(F(1), F(0)), (F(3, 4), F(1, 4)), (F(1, 2), F(1, 2)), (F(1, 4), F(3, 4)), (F(0), F(1))],
-           3: [w for w in product([F(0), F(1, 4), F(1, 2), F(3, 4), F(1)], repeat=3) if sum(w) == 1]}
+           3: [w for w in product([F(0), F(1, 4), F(1, 2), F(3, 4), F(1)], repeat=3) if sum(w) == 1] +
+              [(F(1, 5), F(7, 10), F(1, 10)), (F(3, 10), F(7, 20), F(7, 20)), (F(1, 3), F(1, 3), F(1, 3)), (F(1, 10), F(1, 5), F(7, 10)),
+               (F(7, 10), F(1, 5), F(1, 10))]}
 SLAB = ['int', 'rev', 'str', 'mix', 'tup', 'fd']
 ALAB = ['ab', 'rev', 'ab', 'mix', 'rev', 'fd']
 
